@@ -154,6 +154,11 @@ func vtName(t ucon.VoteType) string { return ucon.VoteTypeToString(t) }
 
 func run(c *kit.Ctx) {
 	n := c.N(960, 40000)
+	if c.Mode == "race" {
+		// the race build is ~15x slower on these histories; 8 batches x 500 histories fit the watchdog
+		// on a loaded machine (40000 did not: ~0.3 histories/s per batch)
+		n = c.N(960, 4000)
+	}
 	for i := 0; i < n; i++ {
 		id := fmt.Sprintf("h%d", i)
 		if !c.Mine(i, id) {
